@@ -7,9 +7,11 @@ LEAN_MODULES = ["HgVerif.Props.C12"]
 THEOREMS = [
     "HgVerif.Switch.inv_reachable",
     "HgVerif.Switch.switch_old_dead",
+    "HgVerif.Switch.lifeStep_meaning",
     "HgVerif.Switch.at_most_one_running",
     "HgVerif.Switch.switch_reselect_fresh",
     "HgVerif.Switch.reselect_ignores_history",
+    "HgVerif.Switch.timing_of_run",
     "HgVerif.Switch.switch_unmatched_error",
     "HgVerif.Switch.unmatched_run_fails",
     "HgVerif.Switch.no_slot_logic_error",
@@ -361,7 +363,7 @@ def _spec(case, out):
     def reset():
         return {"val": {"k": None, "x": None, "y": None}, "cur": None, "ref": None, "branch": None, "now": 1, "dead": False,
                 "running": None, "stopped": set(), "live": set(), "acts": 0, "ticks": 0, "seen_keys": [], "nact_inst": 0,
-                "err": False, "expected_inst": None}
+                "err": False, "prev_switch": None}
 
     for ln, o in zip(case.lines, out):
         w = ln.split()
@@ -462,9 +464,6 @@ def _spec(case, out):
             st["prev_switch"] = now
             if st["acts"] >= 3:
                 feats.add("slot-reuse(>=3 activations)")
-        else:
-            st.setdefault("prev_switch", None)
-        st.setdefault("prev_switch", None)
         if o.startswith("err:"):
             bad.append("[C12-unmatched] cycle %d: the driver reports %r but the key selects a branch" % (now - 1, o))
             st["dead"] = True
@@ -510,6 +509,10 @@ def _life(evs, st, bad, where, feats):
     for e in evs:
         kind = e[0]
         if kind == "C":
+            st["built"] = st.get("built", 0) + 1
+            if st["built"] > 2:
+                bad.append("[C12-old-dead] %s: a child graph was constructed while both slots are occupied "
+                           "(the reused slot was not emptied first)" % where)
             continue
         ident = e[1:].split(":", 1)[0]
         if kind == "S":
@@ -536,6 +539,7 @@ def _life(evs, st, bad, where, feats):
             elif ident not in st["stopped"]:
                 bad.append("[C12-old-dead] %s: instance %s destroyed but never stopped" % (where, ident))
             st["live"].discard(ident)
+            st["built"] = st.get("built", 0) - 1
 
 
 def monitor(stream, case, out):
